@@ -20,7 +20,8 @@ EXTENDS ConvCore
 S(n) == <<"S", n>>
 ContTrees == { S(-1), <<"*", S(-1), S(2)>>, <<":", S(-1), S(-2)>> }
 Cell2Trees == { S(1), <<"*", S(1), S(-3)>> }
-FillTrees == { S(-3), S(3), S(1), <<"*", S(3), S(-2)>>, <<":", S(-3), S(2)>>, <<"*", S(-3), <<":", S(1), S(2)>>>> }
+(* S(-1): a filler that repeats the container's own surface with the same sense *)
+FillTrees == { S(-3), S(3), S(1), S(-1), <<"*", S(3), S(-2)>>, <<":", S(-3), S(2)>>, <<"*", S(-3), <<":", S(1), S(2)>>>> }
 (* thresholds as twice the score (scores are sizes / occurrences): score < max  <=>  2*size < max2*occ *)
 Max2s == {0, 1, 2, 3, 4, 200}
 
